@@ -35,6 +35,9 @@ def strategy():
         cbs = {k: draw(beh) for k in ("onChallenge", "onJoin", "onLeave", "onDisconnect")}
         if draw(st.integers(0, 4)) == 0:
             cbs["onLeave"] = "override"       # user onLeave that only calls self.disconnect() and not the base implementation
+        elif draw(st.integers(0, 5)) == 0:
+            cbs["onLeave"] = "reenter"        # user onLeave that (redundantly) calls self.leave() before self.disconnect(): a local leave request while the session is ending
+        cbs["errback_leave"] = draw(st.sampled_from([False, False, True]))   # errbacks of outstanding requests call leave() (a local leave request at session end)
         cbs["onWelcome"] = draw(st.sampled_from(["return", "return", "return", "return", "return", "veto", "raise", "pending"]))
         steps = []
         for _ in range(draw(st.integers(0, 2))):
@@ -94,6 +97,15 @@ class Run:
         hooks["onWelcome"] = on_welcome
         if cbs.get("onLeave") == "override":
             hooks["onLeave_nobase"] = lambda s, d: s.disconnect()
+        if cbs.get("onLeave") == "reenter":
+            def reenter(s, d):
+                try:
+                    s.leave()
+                except Exception as e:
+                    run.reenter_errors.append(e)
+                s.disconnect()
+            hooks["onLeave_nobase"] = reenter
+        self.reenter_errors = []
         self.w = SessionWorld(serializer=c["ser"], hooks=hooks)
         self.s = self.w.session
         self.M = self.w.message
@@ -330,6 +342,15 @@ class Run:
         except Exception as e:
             self.fail("request-raised-while-joined|%s|%s" % (kind, exc_key(e)), repr(e))
         t = self.w.track(f)
+        if self.c["cbs"].get("errback_leave"):
+            import txaio
+
+            def eb(fail):
+                try:
+                    s.leave()
+                except Exception as e:
+                    self.reenter_errors.append(e)
+            txaio.add_callbacks(f, None, eb)
         new = self.w.t.sent[n_sent:]
         rid = new[0].request if new else None
         rec = {"kind": kind, "t": t, "rid": rid, "answered": False}
@@ -387,7 +408,7 @@ class Run:
             self.fail("goodbye-sent-twice", "")
 
     def check_requests_failed(self, when):
-        if self.c["cbs"]["onLeave"] == "override" and when != "after-transport-gone":
+        if self.c["cbs"]["onLeave"] in ("override", "reenter") and when != "after-transport-gone":
             return      # the library's onLeave did not run: requests are only required to fail once the transport is gone
         for r in self.reqs:
             if r["answered"]:
